@@ -11,6 +11,8 @@ def run(repo, res, tier):
         "in between. L1 verdict flags in pvl_flavor: loads/encodes set to True immediately after the respective "
         "call, handlers round the dump never touch `loads` and catch ValueError, a catch-all reports instead of "
         "aborting, one result per file, report printed on every path, report columns map the verdict pair. "
-        "Not decided: report layout arithmetic.")
+        "IO-KIND: the kind of object arg_parser produces for infile/outfile (argparse.FileType mode vs path) is one every "
+        "writer's dump can use (json.dump needs an open writable file). Not decided: report layout arithmetic.")
     hookrules.rule_tb9(repo, res)
+    hookrules.rule_io_kind(repo, res)
     hookrules.rule_l1(repo, res)
